@@ -379,6 +379,7 @@ def rule_wouldblock_deref(ctx, rep):
 
 
 RULES = [
+    ("C17.proto", lambda c, r: __import__("sa.attrs", fromlist=["x"]).rule_nopure(c, r, "C17.proto", '^_*cds_(wfs|lfs|wfcq|wfq|lfq|lfht)_', "queue / stack / hash-table", 60)),   # compiler-visible contract of the public prototypes: pure / const would let an optimised caller poll once
     ("C17.helping", rule_helping),
     ("C17.waitfree", rule_waitfree),
     ("C17.readers", rule_readers),
